@@ -484,6 +484,12 @@ func c04(c *Ctx) (*report.Result, error) {
 	res.RuleDoc["O4.2"] = "every worker goroutine of sender and receiver trips the latch on every exit (so a broken target or source stream ends its partner)"
 	res.RuleDoc["O4.3"] = "per-incarnation state: sender/receiver structs are built only in streamRouting; the id ring, the delivery and ack channels and the per-target ack map are created in Run; lastSentMin is reset in Run - nothing acknowledged or queued in one incarnation survives into the next"
 	res.RuleDoc["O4.4"] = "the previous receiver incarnation is cancelled before the new one registers (see O8.3)"
+	res.RuleDoc["O4.6"] = "a hand-off to a dying stream is not reported as delivered: DeliverMessagesToShardOwner / DeliverAckToShardOwner return true only after the send arm of the guarded select fired or the intra-proxy send returned nil (same analysis as O9.1) - a task reported delivered is never retried, so a false 'delivered' loses it while later confirmations still advance the acknowledgement"
+	for _, spec := range []struct{ name, getChan, fwd string }{{"DeliverMessagesToShardOwner", "GetRemoteSendChan", "sendReplicationMessages"}, {"DeliverAckToShardOwner", "GetLocalAckChan", "sendAck"}} {
+		if f := resolve(c, res, "O4.6", anchor{"proxy", "*shardManagerImpl", spec.name}); f != nil {
+			checkDeliver(c, res, f, spec.name, spec.getChan, spec.fwd, "O4.6")
+		}
+	}
 	res.RuleDoc["O4.5"] = "a target stream that (re)connects is not told a watermark above tasks still waiting for it: lastWatermark is written only from watermark-only batches (same rule as O1.6)"
 	checkReplayedWatermark(c, res, "O4.5")
 
